@@ -38,6 +38,11 @@ type Spec struct {
 	WorkerProcs string
 	// SelfTestProcs are the GOMAXPROCS values of the determinism self-test.
 	SelfTestProcs []string
+	// IsolationClause, when set, enables the isolation test: sampled runs are
+	// re-executed alone in fresh processes and their result digests compared
+	// with the in-sequence execution; a difference is reported under this
+	// clause (the outcome depends on earlier calls in the same process).
+	IsolationClause string
 	// Shrink, when set, replaces the generic shrinker.
 	Shrink func(c *Case, still func(*Case) bool, budget int) *Case
 	// Post runs once in the orchestrator after the workers (extra stages such
